@@ -352,4 +352,284 @@ theorem VerAhead.create (host : Host) (spec : List (List JobId × Bool)) (brk : 
   · cases hx; cases hj; exact Nat.le_refl _
   · cases hx
 
+/-! ## torn version files (`TSys`, `apiT`, `crashT`, `stepT`)
+
+1. The extension is conservative: while no version file is empty, `stepT` IS `stepX` (so every theorem about
+   histories of API calls and kills between file writes holds verbatim for the extended system).
+2. Fail closed: while a version file is empty, no operation of the API and no kill changes that (data file,
+   version file) pair; the state ends only when the environment rewrites the file.
+-/
+
+/-! ### 1. conservative -/
+
+theorem apiT_ofSys (s : Sys) (op : Op) : apiT (TSys.ofSys s) op = (TSys.ofSys (step s op).1, (step s op).2) := by
+  cases op <;> simp [apiT, TSys.ofSys, maskDisk, unmaskDisk, tornRes]
+
+theorem stepT_ofSys (s : Sys) (op : XOp) :
+    stepT (TSys.ofSys s) (TOp.ofX op) = (TSys.ofSys (stepX s op).1, (stepX s op).2) := by
+  cases op with
+  | api op => simp only [TOp.ofX, stepT, stepX, apiT_ofSys]
+  | crash op k g =>
+    simp only [TOp.ofX, stepT, stepX, crashT, crashStep, apiT_ofSys]
+    by_cases hk : k < (writesOf s.disk (step s op).1.disk).length
+    · simp [TSys.ofSys, hk]
+    · simp [TSys.ofSys, hk]
+
+theorem execT_ofSys : ∀ (ops : List XOp) (s : Sys), execT (TSys.ofSys s) (ops.map TOp.ofX) = TSys.ofSys (execX s ops) := by
+  intro ops
+  induction ops with
+  | nil => intro s; rfl
+  | cons op ops ih =>
+    intro s
+    simp only [List.map_cons, execT, execX, List.foldl_cons]
+    rw [stepT_ofSys]
+    exact ih _
+
+theorem runT_ofSys : ∀ (ops : List XOp) (s : Sys), (runT (TSys.ofSys s) (ops.map TOp.ofX)).2 = (runX s ops).2 := by
+  intro ops
+  induction ops with
+  | nil => intro s; rfl
+  | cons op ops ih =>
+    intro s
+    simp only [List.map_cons, runT, runX]
+    rw [stepT_ofSys]
+    simp only [ih]
+
+/-! ### 2. fail closed -/
+
+/-- the config pair (data file, its presence, version file) is as it was -/
+@[reducible] def CfgKept (d d' : Disk) : Prop := d'.cfg = d.cfg ∧ d'.cfgVer = d.cfgVer ∧ d'.cfgMissing = d.cfgMissing
+
+/-- the job-status pair is as it was -/
+@[reducible] def JsKept (d d' : Disk) : Prop := d'.js = d.js ∧ d'.jsVer = d.jsVer
+
+/-- a private method run by a handle whose config version differs from the version file does not touch the config pair -/
+theorem Eff.cfgKept {d : Disk} {x : Handle} {o : Out} (he : Eff d x o) (hm : x.cfg.version ≠ d.cfgVer) : CfgKept d o.1 := by
+  rcases he.cfg with ⟨a1, a2, a3, _, _⟩ | ⟨a1, _⟩
+  · exact ⟨a1, a2, a3⟩
+  · exact absurd a1 hm
+
+/-- … and likewise for the job-status pair (a handle without a job status never writes it) -/
+theorem Eff.jsKept {d : Disk} {x : Handle} {o : Out} (he : Eff d x o)
+    (hm : ∀ j : JsView, x.js = some j → j.version ≠ d.jsVer) : JsKept d o.1 := by
+  rcases he.js with ⟨a1, a2, _⟩ | ⟨j, a1, a2, _⟩
+  · exact ⟨a1, a2⟩
+  · exact absurd a2 (hm j a1)
+
+theorem locked_kept (s : Sys) (h : Hid) (f : Disk → Handle → Out) (hE : ∀ (d : Disk) (x : Handle), Eff d x (f d x)) :
+    ((∀ x : Handle, s.handles h = some x → x.cfg.version ≠ s.disk.cfgVer) → CfgKept s.disk (locked s h f).1.disk) ∧
+    ((∀ (x : Handle) (j : JsView), s.handles h = some x → x.js = some j → j.version ≠ s.disk.jsVer) →
+      JsKept s.disk (locked s h f).1.disk) := by
+  rcases locked_cases s h f with ⟨_, h2⟩ | ⟨x, _, _, h2⟩ | ⟨x, hx, _, h2⟩
+  · rw [h2]; exact ⟨fun _ => ⟨rfl, rfl, rfl⟩, fun _ => ⟨rfl, rfl⟩⟩
+  · rw [h2]; exact ⟨fun _ => ⟨rfl, rfl, rfl⟩, fun _ => ⟨rfl, rfl⟩⟩
+  · rw [h2]
+    exact ⟨fun hm => (hE s.disk x).cfgKept (hm x hx), fun hm => (hE s.disk x).jsKept (fun j hj => hm x j hx hj)⟩
+
+theorem unlocked_kept (s : Sys) (h : Hid) (f : Disk → Handle → Out) (hE : ∀ (d : Disk) (x : Handle), Eff d x (f d x)) :
+    ((∀ x : Handle, s.handles h = some x → x.cfg.version ≠ s.disk.cfgVer) → CfgKept s.disk (unlocked s h f).1.disk) ∧
+    ((∀ (x : Handle) (j : JsView), s.handles h = some x → x.js = some j → j.version ≠ s.disk.jsVer) →
+      JsKept s.disk (unlocked s h f).1.disk) := by
+  rcases unlocked_cases s h f with ⟨_, h2⟩ | ⟨x, hx, h2⟩
+  · rw [h2]; exact ⟨fun _ => ⟨rfl, rfl, rfl⟩, fun _ => ⟨rfl, rfl⟩⟩
+  · rw [h2]
+    exact ⟨fun hm => (hE s.disk x).cfgKept (hm x hx), fun hm => (hE s.disk x).jsKept (fun j hj => hm x j hx hj)⟩
+
+/-- a fresh handle: it has no job status yet when it is promoted, and its config version is the one inside
+    `cluster_config.json` -/
+theorem loadOp_kept (s : Sys) (slot : Option Hid) (host : Host) (p j : Bool) :
+    (s.disk.cfg.version ≠ s.disk.cfgVer → CfgKept s.disk (loadOp s slot host p j).1.disk) ∧
+    JsKept s.disk (loadOp s slot host p j).1.disk := by
+  unfold Jade.Cluster.loadOp
+  split
+  · exact ⟨fun _ => ⟨rfl, rfl, rfl⟩, ⟨rfl, rfl⟩⟩
+  · have hj0 : ∀ j : JsView, (newHandle host s.disk).js = some j → j.version ≠ s.disk.jsVer := by
+      intro j hj; cases hj
+    rcases doLoad_shape host p j s.disk with h | ⟨o, he, h | h⟩
+    · rw [h]
+      cases slot <;> exact ⟨fun _ => ⟨rfl, rfl, rfl⟩, ⟨rfl, rfl⟩⟩
+    · rw [h]
+      cases slot <;> exact ⟨fun hm => he.cfgKept hm, he.jsKept hj0⟩
+    · rw [h]
+      cases slot <;> exact ⟨fun hm => he.cfgKept hm, he.jsKept hj0⟩
+
+/-- `Cluster.deserialize` without promotion writes nothing -/
+theorem loadOp_noPromote_kept (s : Sys) (slot : Option Hid) (host : Host) (j : Bool) :
+    CfgKept s.disk (loadOp s slot host false j).1.disk := by
+  unfold Jade.Cluster.loadOp doLoad
+  split
+  · exact ⟨rfl, rfl, rfl⟩
+  · split
+    · cases slot <;> exact ⟨rfl, rfl, rfl⟩
+    · cases slot <;> exact ⟨rfl, rfl, rfl⟩
+
+/-- the acting handle's versions, as `Op.mine` reads them -/
+theorem Op.mine_handle (s : Sys) (op : Op) (h : Hid) (x : Handle) (ha : op.actor = some h) (hx : s.handles h = some x) :
+    op.mine s = (x.cfg.version, match x.js with | none => 0 | some j => j.version) := by
+  cases op <;> simp only [Op.actor, Option.some.injEq, reduceCtorEq] at ha <;> subst ha <;> simp only [Op.mine, Op.actor, hx] <;> cases x.js <;> rfl
+
+/-- An operation whose process holds a config version (resp. job-status version) that DIFFERS from the version file
+    leaves that pair alone — the statement of `C10_stale_rejected`, reduced to the files and stated for every operation. -/
+theorem step_kept (s : Sys) (op : Op) (hnt : op.isTamper = false) :
+    ((op.mine s).1 ≠ s.disk.cfgVer → CfgKept s.disk (step s op).1.disk) ∧
+    ((op.mine s).2 ≠ s.disk.jsVer → JsKept s.disk (step s op).1.disk) := by
+  have viaHandle : ∀ (h : Hid), op.actor = some h → ∀ (d' : Disk),
+      (((∀ x : Handle, s.handles h = some x → x.cfg.version ≠ s.disk.cfgVer) → CfgKept s.disk d') ∧
+       ((∀ (x : Handle) (j : JsView), s.handles h = some x → x.js = some j → j.version ≠ s.disk.jsVer) → JsKept s.disk d')) →
+      (((op.mine s).1 ≠ s.disk.cfgVer → CfgKept s.disk d') ∧ ((op.mine s).2 ≠ s.disk.jsVer → JsKept s.disk d')) := by
+    intro h ha d' hk
+    constructor
+    · intro hm
+      refine hk.1 (fun x hx => ?_)
+      rw [Op.mine_handle s op h x ha hx] at hm
+      exact hm
+    · intro hm
+      refine hk.2 (fun x j hx hj => ?_)
+      rw [Op.mine_handle s op h x ha hx, hj] at hm
+      exact hm
+  cases op with
+  | load h host p j =>
+    have := loadOp_kept s (some h) host p j
+    exact ⟨this.1, fun _ => this.2⟩
+  | promote h => exact viaHandle h rfl _ (locked_kept s h _ doPromote_eff)
+  | demote h => exact viaHandle h rfl _ (locked_kept s h _ doDemote_eff)
+  | update h a => exact viaHandle h rfl _ (locked_kept s h _ (doUpdate_eff a))
+  | markComplete h => exact viaHandle h rfl _ (locked_kept s h _ doMarkComplete_eff)
+  | markCanceled h => exact viaHandle h rfl _ (locked_kept s h _ doMarkCanceled_eff)
+  | completeHpcId h id => exact viaHandle h rfl _ (locked_kept s h _ (doCompleteHpcId_eff id))
+  | deserializeJobs h => exact viaHandle h rfl _ (locked_kept s h _ doDeserializeJobs_eff)
+  | allComplete h => exact viaHandle h rfl _ (locked_kept s h _ doAllComplete_eff)
+  | prepareResubmit h sel bl =>
+    simp only [Jade.Cluster.step]
+    split
+    · exact viaHandle h rfl _ (locked_kept s h _ (doPrepareResubmit_eff sel bl))
+    · exact viaHandle h rfl _ (unlocked_kept s h _ (doPrepareResubmit_eff sel bl))
+  | read =>
+    have hst : (Jade.Cluster.step s .read).1 = (Jade.Cluster.loadOp s none 0 false true).1 := by
+      simp only [Jade.Cluster.step]
+      split <;> simp_all
+    rw [hst]
+    have := loadOp_kept s none 0 false true
+    exact ⟨fun _ => loadOp_noPromote_kept s none 0 true, fun _ => this.2⟩
+  | breakMarker =>
+    simp only [Jade.Cluster.step]
+    split <;> exact ⟨fun _ => ⟨rfl, rfl, rfl⟩, fun _ => ⟨rfl, rfl⟩⟩
+  | forgeCfgVer n => cases hnt
+  | forgeJsVer n => cases hnt
+  | rmCfg => cases hnt
+  | memCancel h j =>
+    show (_ → CfgKept _ (memJob ..).1.disk) ∧ (_ → JsKept _ (memJob ..).1.disk)
+    rw [memJob_disk]; exact ⟨fun _ => ⟨rfl, rfl, rfl⟩, fun _ => ⟨rfl, rfl⟩⟩
+  | memUnblock h j done =>
+    show (_ → CfgKept _ (memJob ..).1.disk) ∧ (_ → JsKept _ (memJob ..).1.disk)
+    rw [memJob_disk]; exact ⟨fun _ => ⟨rfl, rfl, rfl⟩, fun _ => ⟨rfl, rfl⟩⟩
+
+/-- an API operation (not one of the environment's) in a system with possibly empty version files: the unchanged `step`
+    on the masked disk -/
+theorem apiT_api (t : TSys) (op : Op) (hnt : op.isTamper = false) :
+    apiT t op =
+      ({ t with s := { (step { t.s with disk := maskDisk t (op.mine t.s) } op).1 with
+                         disk := unmaskDisk t (step { t.s with disk := maskDisk t (op.mine t.s) } op).1.disk } },
+       tornRes t op (op.mine t.s) (step { t.s with disk := maskDisk t (op.mine t.s) } op).2) := by
+  cases op <;> first | rfl | cases hnt
+
+/-- masking the version files does not change what the acting process holds in memory -/
+theorem Op.mine_mask (t : TSys) (op : Op) (m : Nat × Nat) : op.mine { t.s with disk := maskDisk t m } = op.mine t.s := by
+  cases op <;> rfl
+
+/-- While `config_version.txt` is empty, no API operation changes the config pair (the hidden number included), and the
+    file stays empty; likewise for the job-status pair. -/
+theorem apiT_failClosed (t : TSys) (op : Op) (hnt : op.isTamper = false) :
+    (t.cfgVerTorn = true → (apiT t op).1.cfgVerTorn = true ∧ CfgKept t.s.disk (apiT t op).1.s.disk) ∧
+    (t.jsVerTorn = true → (apiT t op).1.jsVerTorn = true ∧ JsKept t.s.disk (apiT t op).1.s.disk) := by
+  rw [apiT_api t op hnt]
+  have hk := step_kept { t.s with disk := maskDisk t (op.mine t.s) } op hnt
+  rw [Op.mine_mask] at hk
+  constructor
+  · intro ht
+    have hm : (op.mine t.s).1 ≠ (maskDisk t (op.mine t.s)).cfgVer := by
+      simp only [maskDisk, ht, if_true]; omega
+    obtain ⟨a1, _, a3⟩ := hk.1 hm
+    refine ⟨ht, ?_, ?_, ?_⟩
+    · exact a1
+    · simp only [unmaskDisk, ht, if_true]
+    · exact a3
+  · intro ht
+    have hm : (op.mine t.s).2 ≠ (maskDisk t (op.mine t.s)).jsVer := by
+      simp only [maskDisk, ht, if_true]; omega
+    obtain ⟨a1, _⟩ := hk.2 hm
+    refine ⟨ht, ?_, ?_⟩
+    · exact a1
+    · simp only [unmaskDisk, ht, if_true]
+
+/-- the first `k` writes of an operation that left the config pair alone leave it alone -/
+theorem tornDisk_cfgKept (d d' : Disk) (k : Nat) (h : CfgKept d d') : CfgKept d (tornDisk d d' k) := by
+  obtain ⟨h1, h2, h3⟩ := h
+  have hc : cfgPairChanged d d' = false := by simp [cfgPairChanged, h1, h2, h3]
+  unfold tornDisk writesOf
+  rw [hc, jsWriteOrder_eq]
+  cases jsPairChanged d d' <;> rcases k with _ | _ | _ | k <;> simp [writeFile, CfgKept]
+
+theorem tornDisk_jsKept (d d' : Disk) (k : Nat) (h : JsKept d d') : JsKept d (tornDisk d d' k) := by
+  obtain ⟨h1, h2⟩ := h
+  have hc : jsPairChanged d d' = false := by simp [jsPairChanged, h1, h2]
+  unfold tornDisk writesOf
+  rw [hc, cfgWriteOrder_eq]
+  cases cfgPairChanged d d' <;> rcases k with _ | _ | _ | k <;> simp [writeFile, JsKept]
+
+/-- … and so does a kill at any file write of any API operation, torn or not -/
+theorem crashT_failClosed (t : TSys) (op : Op) (k : Nat) (g torn : Bool) (hnt : op.isTamper = false) :
+    (t.cfgVerTorn = true → (crashT t op k g torn).1.cfgVerTorn = true ∧ CfgKept t.s.disk (crashT t op k g torn).1.s.disk) ∧
+    (t.jsVerTorn = true → (crashT t op k g torn).1.jsVerTorn = true ∧ JsKept t.s.disk (crashT t op k g torn).1.s.disk) := by
+  have ha := apiT_failClosed t op hnt
+  unfold crashT
+  simp only
+  split
+  · constructor
+    · intro ht
+      exact ⟨by simp [ht], tornDisk_cfgKept _ _ k (ha.1 ht).2⟩
+    · intro ht
+      exact ⟨by simp [ht], tornDisk_jsKept _ _ k (ha.2 ht).2⟩
+  · exact ha
+
+theorem stepT_failClosed (t : TSys) (op : TOp) (hnt : op.isTamper = false) :
+    (t.cfgVerTorn = true → (stepT t op).1.cfgVerTorn = true ∧ CfgKept t.s.disk (stepT t op).1.s.disk) ∧
+    (t.jsVerTorn = true → (stepT t op).1.jsVerTorn = true ∧ JsKept t.s.disk (stepT t op).1.s.disk) := by
+  cases op with
+  | api op => exact apiT_failClosed t op hnt
+  | crash op k g torn => exact crashT_failClosed t op k g torn hnt
+
+theorem execT_failClosed : ∀ (ops : List TOp) (t : TSys), (∀ op ∈ ops, op.isTamper = false) →
+    (t.cfgVerTorn = true → (execT t ops).cfgVerTorn = true ∧ CfgKept t.s.disk (execT t ops).s.disk) ∧
+    (t.jsVerTorn = true → (execT t ops).jsVerTorn = true ∧ JsKept t.s.disk (execT t ops).s.disk) := by
+  intro ops
+  induction ops with
+  | nil => intro t _; exact ⟨fun ht => ⟨ht, rfl, rfl, rfl⟩, fun ht => ⟨ht, rfl, rfl⟩⟩
+  | cons op ops ih =>
+    intro t hnt
+    have h1 := stepT_failClosed t op (hnt op (List.mem_cons_self ..))
+    have h2 := ih (stepT t op).1 (fun o ho => hnt o (List.mem_cons_of_mem _ ho))
+    show (_ → (execT (stepT t op).1 ops).cfgVerTorn = true ∧ CfgKept _ (execT (stepT t op).1 ops).s.disk) ∧
+         (_ → (execT (stepT t op).1 ops).jsVerTorn = true ∧ JsKept _ (execT (stepT t op).1 ops).s.disk)
+    constructor
+    · intro ht
+      obtain ⟨b0, b1, b2, b3⟩ := h1.1 ht
+      obtain ⟨c0, c1, c2, c3⟩ := h2.1 b0
+      exact ⟨c0, c1.trans b1, c2.trans b2, c3.trans b3⟩
+    · intro ht
+      obtain ⟨b0, b1, b2⟩ := h1.2 ht
+      obtain ⟨c0, c1, c2⟩ := h2.2 b0
+      exact ⟨c0, c1.trans b1, c2.trans b2⟩
+
+/-- with an EMPTY `config_version.txt` no operation that reads it reports a version mismatch: the compare is never
+    reached, the exception is the ValueError of the read -/
+theorem tornRes_not_mismatch (t : TSys) (op : Op) (m : Nat × Nat) (r : Res) (ht : t.cfgVerTorn = true)
+    (hr : op.readsCfgVer = true) : tornRes t op m r ≠ .err .versionMismatch := by
+  unfold tornRes
+  rw [ht, hr]
+  cases r with
+  | err e => cases e <;> simp [compareRaised]
+  | attrErr => simp only [compareRaised]; split <;> simp
+  | _ => simp [compareRaised]
+
 end Jade.Cluster
